@@ -891,8 +891,39 @@ func c18GenPath(r *Rand) string {
 	return dir + name
 }
 
+// c18WildScript: an arbitrary interleaving of header operations, WriteHeader, Write and Flush
+// (the theorems quantify over every such sequence). No Content-Length (the inner one must be
+// right, see the assumptions), final statuses with a body only, Content-Encoding labels only
+// that the harness client does not try to peel (the writes are not encoded).
+func c18WildScript(r *Rand) []c18Op {
+	var ops []c18Op
+	if r.Chance(70) {
+		ops = append(ops, c18Op{K: "set", A: "Content-Type", B: "text/plain"})
+	}
+	for n := r.Range(1, 9); n > 0; n-- {
+		switch r.Intn(9) {
+		case 0, 1:
+			ops = append(ops, c18Op{K: "wh", N: c18PickInt(r, []int{200, 200, 201, 404, 500})})
+		case 2, 3, 4:
+			ops = append(ops, c18Op{K: "w", D: c18Text(r, c18PickInt(r, []int{0, 1, 7, 40, 300}))})
+		case 5, 6:
+			ops = append(ops, c18Op{K: "f"})
+		case 7:
+			ops = append(ops, c18Op{K: "set", A: "Content-Encoding", B: r.Pick([]string{"frob", "identity", "frob, x", ""})}) // never a coding the body is not in
+		case 8:
+			late := []c18Op{{K: "set", A: "ETag", B: `"abc"`}, {K: "add", A: "Vary", B: "Cookie"},
+				{K: "del", A: "Content-Encoding"}, {K: "set", A: "X-Late", B: "1"}}
+			ops = append(ops, late[r.Intn(len(late))])
+		}
+	}
+	return ops
+}
+
 func c18GenScript(r *Rand, cfgs []c18Cfg, hazard string) ([]c18Op, int) {
 	var ops []c18Op
+	if hazard == "wild" {
+		return c18WildScript(r), 0
+	}
 	// plaintext and how the handler has (already) encoded it
 	sizes := []int{0, 1, 19, 20, 21, 36, 37, 38, 99, 100, 101, 399, 400, 401, 600}
 	n := c18PickInt(r, sizes)
@@ -1058,6 +1089,8 @@ func c18Gen(r *Rand, tier string) []interface{} {
 			hz := ""
 			if r.Chance(10) {
 				hz = r.Pick(hazards)
+			} else if r.Chance(12) {
+				hz = "wild"
 			}
 			pickAE(in, hz)
 			in.Script, in.Ret = c18GenScript(r, cfgs, hz)
